@@ -2,6 +2,7 @@
 from __future__ import annotations
 
 import itertools
+import json
 import os
 import re
 import subprocess
@@ -542,6 +543,10 @@ def atheris_campaign(chk, seconds, runs):
     total = 0
     crashes = []
     procs = []
+    for fn in os.listdir(outdir):
+        if fn.startswith("found-"):
+            os.remove(os.path.join(outdir, fn))
+    env["FUZZ_FOUND_DIR"] = outdir
     for k in range(8):
         corpus = os.path.join(outdir, f"corpus{k}")
         if os.path.isdir(corpus):
@@ -554,8 +559,11 @@ def atheris_campaign(chk, seconds, runs):
                 with open(os.path.join(corpus, f"seed{j}"), "w") as fh:
                     fh.write(s)
         cmd = [sys.executable, script, corpus, f"-max_total_time={seconds}", f"-runs={runs}", f"-seed={chk.seed * 100 + k + 1}",
-               "-max_len=256", f"-artifact_prefix={outdir}/crash{k}-"]
-        procs.append(subprocess.Popen(cmd, env=env, stdout=subprocess.PIPE, stderr=subprocess.STDOUT, text=True))
+               "-max_len=256" if k < 4 else "-max_len=2048", f"-artifact_prefix={outdir}/crash{k}-"]
+        penv = dict(env)
+        if k >= 4:
+            penv["FUZZ_MODE"] = "hypothesis"  # half of the campaigns search through the structured generators
+        procs.append(subprocess.Popen(cmd, env=penv, stdout=subprocess.PIPE, stderr=subprocess.STDOUT, text=True))
     for k, p in enumerate(procs):
         out, _ = p.communicate()
         m = re.findall(r"#(\d+)\s+DONE", out) or re.findall(r"stat::number_of_executed_units: (\d+)", out)
@@ -565,13 +573,12 @@ def atheris_campaign(chk, seconds, runs):
             if "No module named 'atheris'" in out or "ModuleNotFoundError" in out:
                 chk.notes.append("atheris is not installed (.deps missing): coverage-guided campaign skipped")
                 return 0
-            for fn in os.listdir(outdir):
-                if fn.startswith(f"crash{k}-"):
-                    with open(os.path.join(outdir, fn), "rb") as fh:
-                        crashes.append(fh.read().decode("utf-8", "replace"))
+    for fn in sorted(os.listdir(outdir)):
+        if fn.startswith("found-"):
+            with open(os.path.join(outdir, fn)) as fh:
+                crashes.append(json.load(fh))
     stats = Stats()
-    for text in crashes:
-        case = {"text": text[:256], "kind": "arbitrary"}
+    for case in crashes:
         stats.add(case, check_text(case))
     chk.absorb(stats, kind="text")
     chk.coverage_extra["atheris_executions"] = total
